@@ -263,6 +263,12 @@ func (e *Environment) Get(name string) (Object, bool) {
 	if e.function != nil && e.function.Name != nil && name == e.function.Name.Literal() {
 		return *e.function, true
 	}
+	return e.getStored(name)
+}
+
+// getStored is Get without the answers that are not bindings (info, self, the running function under its own name):
+// what the name is bound to in this frame or, through a reference, further out.
+func (e *Environment) getStored(name string) (Object, bool) {
 	obj, ok := e.store[name]
 	if ok {
 		// using references to non constant (extensions are constants) implies uncacheable.
@@ -410,7 +416,9 @@ func (e *Environment) Set(name string, val Object) Object {
 
 func (e *Environment) CreateOrSet(name string, val Object, create bool) Object {
 	if Constant(name) {
-		old, ok := e.Get(name) // not ok
+		// What the name is bound to, not what it evaluates to: inside func FOO, Get(FOO) is the running function
+		// whatever FOO is bound to by now, and the check compared the function with itself.
+		old, ok := e.getStored(name)
 		if ok {
 			log.Infof("Attempt to change constant %s from %v to %v", name, old, val)
 			// Re-assigning a constant is only allowed with the very same value: == is not enough ([1] == [1.0]).
